@@ -161,4 +161,13 @@ def tourHypsB (nw : Network) : Bool :=
     ((nw.node i).kind != .endDepot || (nw.node i).startT == .latest) &&
     ExtTime.le (nw.node i).startT (nw.node i).endT)
 
+/-- hypothesis `ActPos` of the formation-membership theorems (C10Forms/C10Fit), as a check on a loaded
+    network: every activity (service trip or maintenance slot) has a positive duration -/
+def actPosB (nw : Network) : Bool :=
+  nw.allIdx.all (fun i => !(isActivity (nw.node i)) || ExtTime.lt (nw.node i).startT (nw.node i).endT) &&
+  !(isActivity (default : Node))
+
+/-- all network-level hypotheses of the formation-membership theorems -/
+def formHypsB (nw : Network) : Bool := tourHypsB nw && actPosB nw
+
 end RSSched.Spec
